@@ -1,6 +1,9 @@
 package verifrt
 
 import (
+	"fmt"
+	"reflect"
+	"sort"
 	"time"
 	"unsafe"
 )
@@ -192,4 +195,41 @@ func Sleep(d time.Duration) {
 		return
 	}
 	call(request{kind: OpSleep, d: d})
+}
+
+// MapEntry / MapEntries: deterministic iteration over a map (see the instrumenter: every range over a
+// map in the library is rewritten to range over MapEntries). Keys are ordered by kind: integers, unsigned
+// integers, floats and strings by value, everything else by its printed form.
+type MapEntry[K comparable, V any] struct {
+	K K
+	V V
+}
+
+func MapEntries[M ~map[K]V, K comparable, V any](m M) []MapEntry[K, V] {
+	out := make([]MapEntry[K, V], 0, len(m))
+	for k, v := range m {
+		out = append(out, MapEntry[K, V]{k, v})
+	}
+	if len(out) < 2 {
+		return out
+	}
+	kind := reflect.ValueOf(out[0].K).Kind()
+	sort.Slice(out, func(i, j int) bool {
+		a, b := reflect.ValueOf(out[i].K), reflect.ValueOf(out[j].K)
+		if a.Kind() != kind || b.Kind() != kind {
+			return fmt.Sprint(out[i].K) < fmt.Sprint(out[j].K)
+		}
+		switch kind {
+		case reflect.Int, reflect.Int8, reflect.Int16, reflect.Int32, reflect.Int64:
+			return a.Int() < b.Int()
+		case reflect.Uint, reflect.Uint8, reflect.Uint16, reflect.Uint32, reflect.Uint64, reflect.Uintptr:
+			return a.Uint() < b.Uint()
+		case reflect.Float32, reflect.Float64:
+			return a.Float() < b.Float()
+		case reflect.String:
+			return a.String() < b.String()
+		}
+		return fmt.Sprint(out[i].K) < fmt.Sprint(out[j].K)
+	})
+	return out
 }
